@@ -64,7 +64,8 @@ func runTest(fileName string, in io.Reader, out io.Writer, env *object.Env) int 
 	inner := object.NewEnclosedEnv(env)
 	inner.SetSourceFilePath(fileName)
 
-	exitCode := runSource(parser.NewReader(fp, fileName), in, out, env)
+	// NOTE: each file is evaluated in its own scope (variables are not shared among test files)
+	exitCode := runSource(parser.NewReader(fp, fileName), in, out, inner)
 	return exitCode
 }
 
